@@ -45,12 +45,67 @@ def _envelope_facts(name, body, params, lang, consts=None):
             for x in walk_expr(val):
                 if x[0] == 'idx' and x[2][0] == 'slice' and x[1] == ('var', params[1]):
                     sl.add((norm_minmax(x[2][1]), norm_minmax(x[2][2])))
+        if not sl:
+            # the envelope as explicit running extrema (the form the C copies use)
+            scans = _py_scans(outer.body, params[1])
+            ex2.scan_facts = scans
+            sl = {(norm_minmax(subst_expr(sc['lo'], out or lenv)), norm_minmax(subst_expr(sc['hi'], out or lenv))) for sc in scans}
         if len(sl) != 1:
             raise AnalysisError('unrecognised shape: envelope slices of %s: %d' % (name, len(sl)))
         lo_e, hi_e = list(sl)[0]
     lo = kernels.term(lo_e, amap)
     hi = kernels.term(hi_e, amap)
     return lo, hi, hi_rows, outer, ex2, out
+
+
+def _py_scans(body, s2name):
+    """Running-extremum scans over elements of series `s2name` in the loops of `body`: one dict per scan with kind ('max'/'min'), the accumulator
+    compared against (`cmp`), the accumulator assigned (`acc`), whether it is the else-arm of another scan (`chained`), the initial value (`init`:
+    'elem' when it is an element of the scanned range or the one just before it, 'inf+' / 'inf-', None) and the effective index range lo/hi."""
+    from ..canon import same
+    INFS = (('num', float('inf')), ('var', 'inf'), ('attr', ('var', 'np'), 'inf'), ('attr', ('var', 'math'), 'inf'))
+    res = []
+    for bi, lp in enumerate(body):
+        if lp.k != 'for':
+            continue
+        el = ('idx', ('var', s2name), ('var', lp.var))
+        alias = {t.target for t in lp.body if t.k == 'assign' and t.target[0] == 'var' and t.value == el}
+
+        def is_elem(e):
+            return e == el or e in alias
+        found = []
+
+        def visit(st, chained):
+            if st.k != 'if' or st.cond[0] != 'bin' or st.cond[1] not in ('<', '<='):
+                return
+            a, b = st.cond[2], st.cond[3]
+            kind = 'max' if is_elem(b) and a[0] == 'var' else 'min' if is_elem(a) and b[0] == 'var' else None
+            if kind and len(st.then) == 1 and st.then[0].k == 'assign' and st.then[0].target[0] == 'var' and is_elem(st.then[0].value):
+                found.append({'kind': kind, 'cmp': a if kind == 'max' else b, 'acc': st.then[0].target, 'chained': chained, 'line': st.line})
+                if len(st.els) == 1:
+                    visit(st.els[0], True)
+        for st in lp.body:
+            visit(st, False)
+        for sc in found:
+            init = None
+            lo = lp.lo
+            for t in body[:bi]:
+                if t.k == 'assign' and t.target == sc['acc']:
+                    v = t.value
+                    init = None
+                    lo = lp.lo
+                    if v[0] == 'idx' and v[1] == ('var', s2name) and v[2][0] != 'slice':
+                        if same(('bin', '+', v[2], ('num', 1)), lp.lo):
+                            init, lo = 'elem', v[2]
+                        elif same(v[2], lp.lo):
+                            init = 'elem'
+                    elif v in INFS:
+                        init = 'inf+'
+                    elif v == ('num', float('-inf')) or (v[0] == 'un' and v[1] == 'neg' and v[2] in INFS):
+                        init = 'inf-'
+            sc.update(init=init, lo=lo, hi=lp.hi)
+            res.append(sc)
+    return res
 
 
 def rule_lb_keogh(ctx, m):
@@ -98,6 +153,16 @@ def rule_lb_keogh(ctx, m):
                     role.setdefault('lower', fmt(s_.target))
                 elif v[0] == 'idx' and v[1] == ('var', params[0]):
                     role.setdefault('elem', fmt(s_.target))
+        for sc in getattr(ex2, 'scan_facts', None) or []:
+            side = 'upper' if sc['kind'] == 'max' else 'lower'
+            role[side] = fmt(sc['acc'])
+            want = ('elem', 'inf-') if sc['kind'] == 'max' else ('elem', 'inf+')
+            ok_scan = sc['cmp'] == sc['acc'] and sc['init'] in want and not (sc['chained'] and sc['init'] != 'elem')
+            ctx.check(ok_scan, 'R-BAND', file, nm, '%s envelope scan' % side,
+                      'the running %s of the envelope window must compare each element with the accumulator it updates, starting from an element of the window or %s '
+                      '(an else-chained pair of scans only from an element); found: compares with %s, updates %s, start %s%s -- the envelope is then not the extremum of the '
+                      'window and the bound can exceed the DTW distance' % ('maximum' if sc['kind'] == 'max' else 'minimum', '-inf' if sc['kind'] == 'max' else '+inf',
+                                                                       fmt(sc['cmp']), fmt(sc['acc']), sc['init'], ', chained' if sc['chained'] else ''), sc['line'])
         elem = role.get('elem')
         pairs = []
         for c, th in conds:
